@@ -49,7 +49,10 @@ func (h *harness) replayKnown() {
 			m.Amounts[0] = sdkmath.NewInt(5)
 		}
 		var decoded *crosschaintypes.MsgBridgeCallClaim
-		o := h.wireRun(m, ops, func(x proto.Message) error { decoded = x.(*crosschaintypes.MsgBridgeCallClaim); return decoded.ValidateBasic() })
+		o := h.wireRun(m, ops, func(x proto.Message) error {
+			decoded = x.(*crosschaintypes.MsgBridgeCallClaim)
+			return decoded.ValidateBasic()
+		})
 		h.rep.Case("replay|claim-amount|"+variant+"|validate|"+o.Class, true)
 		h.rep.Count("replay:claim-amount:" + variant + ":validate:" + o.Class)
 		if o.Class != "ok" {
